@@ -33,11 +33,14 @@ def plan(tier, seed):
     return shards
 
 
-def first_problem(t):
-    """(events before the first warning, first warning's error dict or the final raise)"""
+def first_problem(t, warn_mode=False):
+    """(events before the first warning, first warning's error dict or - strict mode only - the final raise)"""
     for i, e in enumerate(t.events):
         if e.kind == "W":
             return t.events[:i], e.err
+    if warn_mode:
+        # in warn mode only a delivered warning counts: an exception escaping the generator is not a warning
+        return t.events, None
     o = t.outcome
     if o[0] in ("constraint", "depleted", "superfluous"):
         return t.events, TR.snap_error(t.exc, materialize=False) if o[0] == "constraint" else TR.snap_error(t.exc)
@@ -63,7 +66,7 @@ def compare(case, rec, T=None):
         rec.count("strict_internal")
         return
     sev, serr = first_problem(ts)
-    wev, werr = first_problem(tw)
+    wev, werr = first_problem(tw, warn_mode=True)
     if ts.outcome[0] == "ok":
         # (c) strict accepts -> warn emits the identical events and no warning
         if tw.warnings:
@@ -78,7 +81,8 @@ def compare(case, rec, T=None):
                 out.append(("first-problem", f"warn-internal-before-first-warning:{tw.outcome[1]}", f"strict raises {sk}; warn mode failed internally before any warning: {tw.outcome[1]}: {tw.outcome[2]}"))
             else:
                 # (d) warn mode emits no warning -> strict must accept
-                out.append(("no-warning-vs-reject", sk, f"strict raises {sk} ({ts.outcome}); warn mode finished without a warning"))
+                how = "finished" if tw.outcome[0] == "ok" else f"raised {tw.okind()} itself"
+                out.append(("no-warning-vs-reject", f"{sk}:{'escapes' if tw.outcome[0] != 'ok' else 'silent'}", f"strict raises {sk} ({ts.outcome}); warn mode {how} without delivering a warning"))
         else:
             value_problem = serr.get("cls") == "ValueConstraintViolatedError"
             exp = len(sev) + (1 if value_problem else 0)
